@@ -127,11 +127,17 @@ def finish(prop, tier, seed, eng, queries, level, rule, assumptions, outside, ex
         rc = 1
     # an unwinding assertion that still fails with doubled bounds is a termination candidate (C16 only)
     for r in unwind:
-        if prop == "C16":
+        if prop == "C16" and r.get("hang_confirmed"):
             q = qmap[r["query"]]
-            rep = None
-            undecided.append(r)
+            path = save_replay(prop, q, r)
+            lines.append("VIOLATION property=%s replay=%s" % (prop, path))
+            sys.stderr.write("  non-termination: %s\n  unwinding assertion: %s\n  inputs: %s\n" % (
+                r["query"], json.dumps(r.get("failed"))[:400], json.dumps(r.get("cex_inputs"))[:800]))
+            violations.append(r)
+            rc = 1
         else:
+            r["reason"] = "unwinding assertion failed with doubled bounds%s" % (
+                " (native replay did not return: non-termination, reported under C16)" if r.get("hang_confirmed") else "")
             undecided.append(r)
     for kf in known.get("findings", []):
         if kf.get("property") == prop and kf.get("status") == "finding":
